@@ -591,12 +591,6 @@ def mkblock_texts(case, p, env):
     return blk2_texts(case, benv)
 
 
-def blk2_sources_ok(case, with_row):
-    """blk2 reads bval only when it is inserted with a data row: a workbook mixes both kinds of insertion, so the
-    generated block tests `bval is defined` itself (see render_blk2)"""
-    return True
-
-
 def render_blk2(case):
     b = case["blk2"]
     rows = [TPL_HEAD, tpl_row(type="send_message", message_text="B2.")]
